@@ -196,8 +196,10 @@ def compare(env, ms, exact=True):
             continue
         ji, jm = flat_shape(di), flat_shape(dm)
         if len(ji) != len(jm) or not all(U.jordan_same(a, b, exact, rotate=False) for a, b in zip(ji, jm)):
-            if U.shape_same(di, dm, exact):
-                aligned = False          # same shape, other order of curves / start vertex: representation drift
+            if U.shape_same(di, dm, exact) or (not exact and U.shape_same(U.drop_collinear(di), U.drop_collinear(dm), exact)):
+                # same shape, other order of curves / start vertex (float data: a removable vertex that clean() kept or
+                # dropped depending on roundings): representation drift
+                aligned = False
             else:
                 diffs.append("var %d: geometry differs" % v)
                 aligned = False
